@@ -30,6 +30,8 @@ STRENGTHENED = {
     'C18-4': 'missed at first for the same reason as C18-3 (the 36 affected latitudes lie within 3e-6 degrees of the poles, outside the domain that was judged); the +-10^4 neighbourhoods of +-90 degrees are swept with stride 1 in the quick tier and are now judged',
     'C03-5': 'missed at first (no o5m input stored more than 15000 strings; C02 has such files but judges decoding, not memory safety of C03 inputs); C03 now reads o5m inputs that fill the reference table with 14998..15002 and 30001 strings followed by back references, in all three build variants',
     'C03-6': 'missed at first (no input made the pending object reach the buffer capacity with a small committed part in front and a long string behind); C03 now sweeps the size of the second object of a valid file in element steps across 1 KiB / 4 KiB / 64 KiB (node refs, members, tags) followed by a string of 300 / 1000 bytes, in OPL, XML and PBF, in all three build variants',
+    'C05-6': 'missed at first (the Reader was only consumed through read(); C20 catches the same change through its own iterator sources); every 5th C05 case now consumes the Reader through InputIterator<Reader, const OSMEntity> with *it++, with a retained copy, or with pre-increment, under ASan and TSan',
+    'C06-6': 'missed at first (C06 delivered empty pieces only never - the quantifier asks for non-empty chunks - and compressed inputs had a single member; C09 catches the same change); the fd part of C06 now also cuts the byte stream into 2-5 gzip members / bzip2 streams, empty ones included, and judges buffer and fd decompressor runs against the uncompressed bytes',
     'C02-1': 'missed at first (string pairs near the 250-character table limit were deliberately kept out of the files); C02 now places pairs of exactly 249/250/251/252 characters followed by references',
 }
 
